@@ -814,6 +814,10 @@ defvjp(anp.atleast_3d, grad_reshape_list)
 def grad_einsum(argnum, ans, operands_, kwargs):
     result_meta = anp.metadata(operands_[argnum])
 
+    def rebroadcast(x):
+        # a labelled axis that has length 1 in every other operand broadcasts against this operand's axis
+        return x if anp.shape(x) == result_meta[0] else anp.broadcast_to(x, result_meta[0])
+
     def vjp(g):
         operands = operands_
         if isinstance(operands[0], str):  # using "ijk" convention.
@@ -843,7 +847,7 @@ def grad_einsum(argnum, ans, operands_, kwargs):
                 new_operands = (g,) + rest_of_ops
 
             new_subscripts = new_input_subs + "->" + subs_wrt
-            return unbroadcast(anp.einsum(new_subscripts, *new_operands), result_meta)
+            return rebroadcast(unbroadcast(anp.einsum(new_subscripts, *new_operands), result_meta))
         else:  # using (op0, sublist0, op1, sublist1, ..., sublistout) convention
             if len(operands) % 2 == 0:
                 raise NotImplementedError("Need sublistout argument")
@@ -851,7 +855,7 @@ def grad_einsum(argnum, ans, operands_, kwargs):
             rest_of_ops = (
                 [operands[-1]] + operands[:argnum] + operands[(argnum + 2) : -1] + [operands[argnum + 1]]
             )
-            return unbroadcast_einsum(anp.einsum(g, *rest_of_ops), result_meta, operands[argnum + 1])
+            return rebroadcast(unbroadcast_einsum(anp.einsum(g, *rest_of_ops), result_meta, operands[argnum + 1]))
 
     return vjp
 
